@@ -154,6 +154,12 @@ func (n *LocalNode) RequestToJoin(joiner chord.VNode) (chord.VNode, []chord.VNod
 		return nil, nil, chord.ErrJoinInvalidState
 	}
 
+	if prevPredecessor.ID() != n.ID() && prevPredecessor.Ping() != nil {
+		// the predecessor pointer is stale (it left or failed and Notify has not replaced it yet):
+		// its key range may already have been handed to us, so the range to give to the joiner
+		// cannot be derived from it. Let the joiner retry once the pointer is repaired
+		return nil, nil, chord.ErrJoinInvalidState
+	}
 	// see issue https://github.com/zllovesuki/specter/issues/23
 	if !chord.Between(prevPredecessor.ID(), joiner.ID(), n.ID(), false) {
 		return nil, nil, chord.ErrJoinInvalidSuccessor
